@@ -6,7 +6,7 @@ From Coq Require Import List ZArith Lia Bool Arith.
 Import ListNotations.
 Require Import C02.Sums C02.Batch C02.Tensor C02.Dense C02.Op C02.Model C02.Spec.
 Require Import C02.ProofsDense C02.ProofsBase C02.ProofsExpand C02.ProofsCtor C02.ProofsMT C02.ProofsMatmul C02.ProofsRaw C02.ProofsAdd
-               C02.ProofsMul C02.ProofsSub C02.ProofsMulM C02.ProofsBatch C02.ProofsAddDiag C02.ProofsPermute C02.ProofsSumBatch C02.ProofsProgram.
+               C02.ProofsMul C02.ProofsSub C02.ProofsMulM C02.ProofsBatch C02.ProofsAddDiag C02.ProofsPermute C02.ProofsSumBatch C02.ProofsProgram C02.ProofsRepeat.
 
 (* the Gallina broadcast function used everywhere in the model and the specification is torch's documented rule *)
 Theorem C02_broadcast_shapes_is_torch_rule a b r :
@@ -119,6 +119,22 @@ Proof.
   exists [Dense (dones [3%nat] 1 1); Dense (dones [1%nat] 1 1)]. eexists. split; [reflexivity|]. split; [reflexivity|].
   vm_compute. discriminate.
 Qed.
+
+(* BatchRepeatLinearOperator(base, rep).repeat(sizes) returns BatchRepeatLinearOperator(base, rep' ) where rep' multiplies the
+   new sizes into the existing repeat counts LEFT-padded with ones ( [brep rep s] ; innermost-first the new batch dimensions are
+   appended): the object denotes torch's repeat of the repeated matrix, for any ranks ( [drepeat] pads the shape of its
+   argument like torch.Tensor.repeat; the constructor's unsqueeze of the base to the new rank is elided by meaning ).
+   The first repeat of any other class is BatchRepeatLinearOperator(self, sizes), whose denotation is [drepeat] by definition.
+   Not part of the Prog language: repeat steps are compared by the direct predicate only. *)
+Theorem C02_repeat_repeat_partial b rep s :
+  Forall (fun d => (0 < d)%nat) (batch b) -> Forall (fun d => (0 < d)%nat) rep ->
+  denote (alg_repeat_brepeat b rep s) == drepeat (denote (BRepeat b rep)) s.
+Proof. exact (alg_repeat_brepeat_correct b rep s). Qed.
+
+(* the padding side matters: op.repeat(3,1,1).repeat(2,1,1,1) has batch shape (2,3); padding the existing counts on the other
+   side (innermost-first: a one PREPENDED) gives (6,1) *)
+Example C02_repeat_padding_side : brep [3%nat] [1%nat; 2%nat] = [3%nat; 2%nat] /\ brep (1%nat :: [3%nat]) [1%nat; 2%nat] = [1%nat; 6%nat].
+Proof. split; reflexivity. Qed.
 
 (* add_jitter / add_diagonal with a 0-d diagonal, every override of the model (base -> AddedDiag with a ConstantDiag, Diag
    family, Triangular, the three added-diagonal classes, Kronecker -> KroneckerProductAddedDiag, LowRankRoot ->
